@@ -273,7 +273,7 @@ func (p *Program) Run(job Job) (res *Result) {
 			res.Exhausted = false
 			break
 		}
-		if len(ex.violations) >= ex.lim.MaxViolations {
+		if ex.unknownViol >= ex.lim.MaxViolations {
 			res.Exhausted = false
 			break
 		}
@@ -378,6 +378,9 @@ func (i *interpreter) escaped(ex *exec, label string) {
 		}
 	}
 	ex.violations = append(ex.violations, v)
+	if v.Known == "" {
+		ex.unknownViol++
+	}
 }
 
 // SortedKeys is a helper for deterministic output.
